@@ -692,6 +692,9 @@ impl Ctx {
 /// Start of the process (set on first use): the Miri shards stop starting new cases after a time
 /// budget instead of being killed by the runner's watchdog on a loaded machine.
 pub static START: std::sync::OnceLock<std::time::Instant> = std::sync::OnceLock::new();
+/// the thorough tier runs tens of millions of cases: the expensive transport dimensions (a real TLS
+/// handshake per case) are then taken less often per case, more often in total
+pub static THOROUGH: std::sync::atomic::AtomicBool = std::sync::atomic::AtomicBool::new(false);
 pub const MIRI_BUDGET_S: u64 = 420;
 
 pub fn par_cases<F>(ctx: &Ctx, prop: &'static str, group: &str, n: u64, f: F) -> Report
